@@ -16,7 +16,9 @@ from harness.common import Check, arr2h, drive, ensure_driver, h2arr, seed, sour
 from harness.methods import quiet
 
 RMAX = ["hor", "ver", "HOR", "VER", "min", "max", "MIN", "MAX", "all"]
-ORIGINS = ["center", "cc", "ul", "uc", "ur", "cl", "cr", "ll", "lc", "lr", "top left", "center right", "bottom center"]
+VERT = {"top": 0, "upper": 0, "center": None, "bottom": -1, "lower": -1}
+HORZ = {"left": 0, "center": None, "right": -1}
+ORIGINS = ["center", "c"] + [v[0] + hz[0] for v in VERT for hz in HORZ] + [f"{v} {hz}" for v in VERT for hz in HORZ]     # every documented form
 
 
 def model_cos(h, w, row, col, spec, odd, N, lin, usin, im, wt):
@@ -102,7 +104,7 @@ def oracle(ck, tier, deep):
             o_arg = origin if rng.random() < 0.7 else (origin[0] - h, origin[1] - w)
         else:
             name = ORIGINS[int(rng.integers(0, len(ORIGINS)))]
-            v, hz = (name[0], name[1]) if len(name) == 2 else ("c", "c") if name == "center" else tuple(s[0] for s in name.split())
+            v, hz = (name[0], name[1]) if len(name) == 2 else ("c", "c") if name in ("center", "c") else tuple(s[0] for s in name.split())
             origin = ({"t": 0, "u": 0, "c": h // 2, "b": h - 1, "l": h - 1}[v], {"l": 0, "c": w // 2, "r": w - 1}[hz])
             o_arg = name
         rmax = RMAX[int(rng.integers(0, len(RMAX)))] if rng.random() < 0.7 else int(rng.integers(6, 20))
@@ -174,6 +176,24 @@ def oracle(ck, tier, deep):
                 if err2 > tol2:
                     ck.violation(dict(sig, clause="exact-recovery-object-reuse"), dict(rep, second_shape=[h2, w2], coeffs2=coeffs2.tolist()),
                                  f"the same Distributions object, second image of shape {(h2, w2)} after {(h, w)}: coefficients off by {err2:.3g}")
+    # every documented way of naming the origin (one word, two-letter codes, two words) is the position it names: same distributions as
+    # with the numeric tuple, on a non-square image
+    for (h, w) in ((21, 30), (26, 19)) if not deep else ((21, 30), (26, 19), (24, 24), (31, 18)):
+        im = rng.random((h, w)) + 0.1
+        for name in ORIGINS:
+            v, hz = (name[0], name[1]) if len(name) == 2 else ("c", "c") if name in ("center", "c") else tuple(s_[0] for s_ in name.split())
+            origin = ({"t": 0, "u": 0, "c": h // 2, "b": h - 1, "l": h - 1}[v], {"l": 0, "c": w // 2, "r": w - 1}[hz])
+            ck.count(("S.origin-name", name), suite="S.recover")
+            rep = dict(shape=[h, w], origin=name, position=list(origin))
+            try:
+                a = quiet(quiet(vmi.Distributions, origin=name, rmax="MAX", order=2).image, im).cos()
+                b = quiet(quiet(vmi.Distributions, origin=origin, rmax="MAX", order=2).image, im).cos()
+            except Exception as e:
+                ck.violation(dict(site="Distributions", clause="origin-name-exception"), rep, f"{type(e).__name__}: {e}")
+                continue
+            if a.shape != b.shape or not np.array_equal(a, b, equal_nan=True):
+                ck.violation(dict(site="Distributions", clause="origin-name"), rep,
+                             f"origin={name!r} on a {h}x{w} image is not the position {origin}: distributions differ from those for the tuple")
     # "any strictly positive weights": a large dynamic range concentrated in a narrow region (a slit, a beam block's surroundings)
     # leaves the higher-order systems invertible; the exact model is still recovered
     import itertools
